@@ -229,6 +229,38 @@ def rule_defn(which):
                     val = table[(True,)] == want_true and table[(False,)] == (not want_true)
                     o.check(rev and val, prog.pretty[bp], name + "-definition",
                             "%s does not test %shas_arc(v, u) for every arc (u, v)" % (name, "!" if neg else ""), prog.fns[bp]["span"])
+        # pairwise predicates cannot be decided from counts: two digraphs with the same order, size and degree sequences can
+        # differ in them, so an implementation that reads nothing but counts is wrong for some input
+        COUNTS = {"indegree", "outdegree", "degree", "size", "order", "contiguous_order", "degree_sequence", "indegree_sequence",
+                  "outdegree_sequence", "semidegree_sequence", "max_degree", "max_indegree", "max_outdegree", "min_degree",
+                  "min_indegree", "min_outdegree", "vertices", "is_sink", "is_source", "is_isolated", "is_pendant", "sinks", "sources"}
+        for trait, name in (("graaf::op::is_tournament::IsTournament", "is_tournament"),
+                            ("graaf::op::is_semicomplete::IsSemicomplete", "is_semicomplete"),
+                            ("graaf::op::is_symmetric::IsSymmetric", "is_symmetric"),
+                            ("graaf::op::is_oriented::IsOriented", "is_oriented")):
+            for p in impl_fns(crate, trait, name):
+                reads_adj = False
+                counts = []
+                for bp in family_bodies(crate, p):
+                    an = crate.an(bp)
+                    for ev in an.events:
+                        if ev["k"] == "call" and ev["key"]:
+                            k = ev["key"]
+                            if k.startswith("graaf::op::") or k.startswith("graaf::repr::") or k.startswith("graaf::gen::"):
+                                if k.split("::")[-1] in COUNTS:
+                                    counts.append(ev)
+                                else:
+                                    reads_adj = True
+                            elif k.startswith("alloc::collections::btree") or k.startswith("slice::") or k.startswith("alloc::vec::Vec::") \
+                                    or k.startswith("core::cmp::PartialEq") or k.startswith("rawptr::"):
+                                if not k.endswith("::len") and not k.endswith("::is_empty"):
+                                    reads_adj = True
+                    if _touches_fields(an, ("A1.arcs#", "A1.blocks#", "A1.arcs*", "A1.arcs.")):
+                        reads_adj = True
+                if counts and not reads_adj:
+                    o.instances += 1
+                    o.check(False, prog.pretty[p], name + "-from-counts", "%s is decided from order / size / degree counts alone; digraphs with "
+                            "equal counts can differ in it (the adjacency of no pair of vertices is ever read)" % name, counts[0]["span"])
         closure_defs(crate, o, PRED_CLOSURES)
         # is_subdigraph: V(self) must be tested for membership in V(d)
         for p in impl_fns(crate, "graaf::op::is_subdigraph::IsSubdigraph", "is_subdigraph"):
@@ -659,3 +691,24 @@ def walk_clause(crate, o, p):
             o.check(ins <= {F, ev["res"]} and ev["res"] in ins, who, "walk-verdict", "the result is not `len > 1 && all pairs are arcs`", ev["span"])
         return
     o.undecided.append((who, "has_walk is written neither over consecutive pairs with all() nor as the cursor loop"))
+
+
+def _touches_fields(an, prefixes):
+    """some event of the body reads or writes memory inside the receiver's containers"""
+    def walk(t):
+        if isinstance(t, tuple) and t:
+            if t[0] in ("mem", "at", "addr") and isinstance(t[1], str) and any(t[1].startswith(p_) for p_ in prefixes):
+                return True
+            return any(walk(x) for x in t if isinstance(x, tuple))
+        return False
+    for ev in an.events:
+        if ev["k"] == "store" and any(ev["region"].startswith(p_) for p_ in prefixes):
+            return True
+        for k in ("args", "val", "discr", "res"):
+            v = ev.get(k)
+            if isinstance(v, list):
+                if any(walk(x) for x in v):
+                    return True
+            elif isinstance(v, tuple) and walk(v):
+                return True
+    return False
